@@ -226,6 +226,77 @@ class Scheduler:
             self.active = False
             SCHED = prev
 
+    # ---- fork/join style (C17): the calling thread stays managed and keeps running
+    def adopt_current(self, name='T0'):
+        """make the calling thread a managed thread holding the baton"""
+        global SCHED
+        me = self.me()
+        if me in self.threads:
+            return
+        self._prev_sched = SCHED
+        SCHED = self
+        self.done_ev = threading.Event()
+        with self.mu:
+            self.threads[me] = {'state': 'run', 'ev': threading.Event(), 'name': name, 'idx': 0}
+            self.order.append(me)
+        self.current = me
+        self.active = True
+
+    def fork(self, worker, name=None):
+        """start a managed thread; the caller keeps the baton"""
+        self.adopt_current()
+        ready = threading.Event()
+        idx = len(self.order)
+
+        def body():
+            ev = threading.Event()
+            with self.mu:
+                self.threads[self.me()] = {'state': 'run', 'ev': ev, 'name': name or 'T%d' % idx, 'idx': idx}
+                self.order.append(self.me())
+            ready.set()
+            ev.wait()
+            ev.clear()
+            try:
+                worker()
+            finally:
+                self._exit()
+        t = threading.Thread(target=body, daemon=True)
+        t.start()
+        if not ready.wait(5):
+            raise RuntimeError('forked thread did not start')
+        self._forked = getattr(self, '_forked', []) + [t]
+        self.yield_point(('fork', idx))
+        return t
+
+    def join_all(self):
+        """the (managed) caller waits for all forked threads, then leaves management"""
+        global SCHED
+        me = self.me()
+        if me not in self.threads:
+            return
+        while not self.deadlock:
+            others = [t for t in self.order if t != me and self.threads[t]['state'] != 'done']
+            if not others:
+                break
+            r = [t for t in others if self.threads[t]['state'] == 'run']
+            if not r:
+                self.deadlock = True
+                self.deadlock_info = {'threads': {self.threads[t]['name']: self.threads[t]['state']
+                                                  for t in self.order}, 'switches': self.switches[-12:]}
+                for t in others:
+                    self.threads[t]['ev'].set()
+                break
+            self.threads[me]['state'] = 'joining'
+            self._switch_to(r[0], 'join')
+            self.threads[me]['state'] = 'run'
+        self.threads[me]['state'] = 'done'
+        self.active = False
+        for t in getattr(self, '_forked', []):
+            t.join(5)
+            if t.is_alive():
+                self.timed_out = True
+        SCHED = getattr(self, '_prev_sched', None)
+
     def _pick_initial(self):
         if self.strategy.get('kind') == 'pct':
             return max(self.order, key=lambda t: self.prio[t])
@@ -274,6 +345,9 @@ class Scheduler:
                 self.change_points.pop(0)
                 self.prio[me] = -self.step      # lowest so far
             r = self._runnable()
+            for t in r:
+                if t not in self.prio:
+                    self.prio[t] = self.rng.randint(10, 20)
             best = max(r, key=lambda t: self.prio[t])
             if best != me:
                 target = best
@@ -311,7 +385,7 @@ class Scheduler:
             raise Deadlock()
         nxt = r[0]
         if self.strategy.get('kind') == 'pct':
-            nxt = max(r, key=lambda t: self.prio[t])
+            nxt = max(r, key=lambda t: self.prio.get(t, 0))
         self._switch_to(nxt, 'blocked')
         self.threads[me]['state'] = 'run'
 
@@ -333,10 +407,12 @@ class Scheduler:
                 self.done_ev.set()
             return
         r = self._runnable()
+        if not r:
+            r = [t for t in self.order if self.threads[t]['state'] == 'joining']
         if r:
             nxt = r[0]
-            if self.strategy.get('kind') == 'pct':
-                nxt = max(r, key=lambda t: self.prio[t])
+            if self.strategy.get('kind') == 'pct' and nxt in getattr(self, 'prio', {}):
+                nxt = max(r, key=lambda t: self.prio.get(t, 0))
             self.switches.append((self.step, self.threads[me]['name'], self.threads[nxt]['name'], 'exit'))
             self.current = nxt
             self.threads[nxt]['ev'].set()
